@@ -10,7 +10,6 @@ import (
 	"strconv"
 	"strings"
 	"sync"
-	"sync/atomic"
 	"testing"
 
 	"github.com/cloudwego/gopkg/bufiox"
@@ -139,6 +138,12 @@ func runConcTask(g, idx int, tk *ConcTask, sm *strmap.StrMap[int], s2s *strmap.S
 			}
 			if v, ok := s2s.Get(k); !ok || v != "v:"+k {
 				return evid.Failf("goroutine %d: shared Str2Str.Get(%q) = (%q,%v)", g, k, v, ok)
+			}
+			if i%64 == 0 && len(keys) <= 100 {
+				// printing a loaded map is a query too
+				if str := sm.String(); len(str) == 0 {
+					return evid.Failf("goroutine %d: shared StrMap.String() returned an empty text", g)
+				}
 			}
 			absent := k + "\x00absent"
 			if _, ok := sm.Get(absent); ok {
@@ -423,7 +428,12 @@ func c14FirstUseChild() {
 		perm[i], perm[j] = perm[j], perm[i]
 	}
 	rounds := len(perm)
-	barrier := make([]int32, rounds)
+	// a blocking barrier per round (a busy-wait barrier of 8 goroutines burns minutes of CPU on a loaded
+	// machine); what the goroutines do after leaving it is unordered with respect to each other
+	barrier := make([]sync.WaitGroup, rounds)
+	for i := range barrier {
+		barrier[i].Add(g)
+	}
 	texts := make([][g]string, rounds)
 	var wg sync.WaitGroup
 	for w := 0; w < g; w++ {
@@ -433,9 +443,8 @@ func c14FirstUseChild() {
 			for r := 0; r < rounds; r++ {
 				tb := thrift.TType(perm[r])
 				data := []byte{byte(perm[r]), 0, 1, 0, 0, 0, 1, 7, 0, 0, 0}
-				atomic.AddInt32(&barrier[r], 1)
-				for atomic.LoadInt32(&barrier[r]) < g {
-				}
+				barrier[r].Done()
+				barrier[r].Wait()
 				var sb strings.Builder
 				note := func(err error) {
 					if err != nil {
@@ -527,7 +536,7 @@ func TestC14_FirstUse(t *testing.T) {
 		c14FirstUseChild()
 		return
 	}
-	rec := evid.New("C14", "c14_first_use", "fresh processes (the race-instrumented test binary re-executed): 8 goroutines, each with its own buffers and decoders, walk all 256 type bytes in a seed-derived order; for every byte they leave a spin barrier together and run the failing paths of all five skippers, the shipped FastRead structs, unknown-field conversion, TTHeader decode and PrependError for the first time in the process; any DATA RACE report or any difference between what the goroutines observed is a violation; every child process is one evaluation; non-trivial = always")
+	rec := evid.New("C14", "c14_first_use", "fresh processes (the race-instrumented test binary re-executed): 8 goroutines, each with its own buffers and decoders, walk all 256 type bytes in a seed-derived order; for every byte they leave a barrier together and run the failing paths of all five skippers, the shipped FastRead structs, unknown-field conversion, TTHeader decode and PrependError for the first time in the process; any DATA RACE report or any difference between what the goroutines observed is a violation; every child process is one evaluation; non-trivial = always")
 	defer rec.Flush()
 	n := evid.Pick(5, 16)
 	shard, _ := evid.Shard()
